@@ -310,8 +310,8 @@ func init() {
 	}
 	ev.Register(&ev.Check{
 		ID: "C09", Level: "model_checking", Workers: 16, QuickSecs: 260, ThorSecs: 1500,
-		Rule: "every history = prefix of <= p arbitrary operations (p=2 quick, 3 thorough) followed by one observing operation, over ~55 op instances (Marshal by value / through a pointer, Unmarshal ok / failing, Pretouch with 4 (MaxInlineDepth,RecursiveDepth) settings, PretouchMany over colliding sets in both orders) " +
-			"on 7 types built to collide (two pairs of distinct types printing identically, a pointer-receiver Marshaler reached by value and by pointer, a recursive type, a 5-deep nest); each history is replayed on the real code from reset program caches; " +
+		Rule: "every history = prefix of <= p arbitrary operations (p=2 quick, 3 thorough) followed by one observing operation, over 66 op instances (Marshal by value / through a pointer, Unmarshal ok / failing, Pretouch with 4-5 (MaxInlineDepth,RecursiveDepth) settings, PretouchMany over colliding sets in both orders) " +
+			"on 9 types built to collide (two pairs of distinct types printing identically, a pointer-receiver Marshaler reached by value and by pointer, a recursive type, a 5-deep nest, a reference cycle across the inline depth); by iterative deepening on the prefix length; the prefix runs on the real code from reset program caches and the state it leaves (the published immutable cache maps, the layout cache) is restored in front of every observing operation; a difference is confirmed on a full replay from reset caches; " +
 			"oracle: every operation returns what it returns right after a reset (differential, no hand-written expectation). Component part: the real ProgramCache with fabricated keys: every insertion order of <= 5 keys from a colliding alphabet at the two rehash boundaries, and 9000 sequential insertions, each key must map to its own value. " +
 			"End-to-end: N distinct StructOf types through both codecs across a rehash. states = histories executed, transitions = operations executed",
 		Assume: []string{"loaded machine code is never unloaded: a reset makes it unreachable, it does not restore the loader's module list"},
